@@ -127,7 +127,6 @@ func fixedScenarios() []*scn {
 	return out
 }
 
-
 // ---- failure kinds of one connection attempt (the property's quantifier)
 
 var failKinds = []string{"refuse", "connect-unsendable", "no-connack", "connack-denied", "drop-before-connack",
@@ -441,10 +440,10 @@ func scheduleScenarios(c *hx.Ctx) []*scn {
 	la := mk("s7-ack-on-later-connection", func(s *scn) {
 		s.start()
 		s.waitCount("online", 1)
-		s.via(func() { s.cmd(sub("l/a", 1)) })       // id 1, never acknowledged on connection 1
-		s.via(func() { s.cmd(pub("t", "p1", 1)) })   // id 2, not acknowledged on connection 1, re-sent
-		s.via(func() { s.cmd(pub("t", "p2", 2)) })   // id 3, PUBREC only ... drop
-		s.via(func() { s.cmd(unsub("l/none")) })     // id 4: the peer drops on it
+		s.via(func() { s.cmd(sub("l/a", 1)) })     // id 1, never acknowledged on connection 1
+		s.via(func() { s.cmd(pub("t", "p1", 1)) }) // id 2, not acknowledged on connection 1, re-sent
+		s.via(func() { s.cmd(pub("t", "p2", 2)) }) // id 3, PUBREC only ... drop
+		s.via(func() { s.cmd(unsub("l/none")) })   // id 4: the peer drops on it
 		s.waitCount("online", 2)
 		s.waitFuts(3)
 		s.via(func() { s.cmd(pub("t", "p3", 1)) })
@@ -457,9 +456,76 @@ func scheduleScenarios(c *hx.Ctx) []*scn {
 	la.plans = []connPlan{{noAck: map[int]bool{1: true, 2: true}, dropAfter: 4}, {sp: true, lateAcks: []packet.Generic{sa}}}
 	add(la)
 
+	// B: the connection is lost while commands are queued and the dispatcher is busy; when it goes on it either sees
+	// the kill signal or hands the next command to the dead client (ErrClientNotConnected): that command is cancelled,
+	// never re-queued behind the others (select picks at random: several copies)
+	nb := 10
+	if c.Thorough() {
+		nb = 40
+	}
+	for i := 0; i < nb; i++ {
+		s := mk(fmt.Sprintf("b-dispatch-to-dead-client-%d", i), func(s *scn) {
+			s.start()
+			s.waitCount("online", 1)
+			s.via(func() { s.cmd(pub("o", "m0-held-in-send", 1)) })
+			s.waitCount("send", 1)
+			for j := 1; j <= 4; j++ {
+				j := j
+				s.via(func() { s.cmd(pub("o", fmt.Sprintf("m%d", j), 1)) })
+			}
+			s.release("drop")
+			s.waitCount("kill", 1)
+			s.release("g")
+			s.waitCount("online", 2)
+			s.recovers()
+		})
+		s.clean = i%2 == 0
+		s.plans = []connPlan{{holdSend: 2, holdGate: "g", dropGate: "drop"}}
+		out = append(out, s)
+	}
+
+	// A: Stop excludes Start until it has returned (the service mutex), and the restarted service keeps its futures
+	// across a reconnect.  Stop(true) is held in the OfflineCallback; a concurrent Start must not return first.
+	for _, clear := range []bool{true, false} {
+		clear := clear
+		s := mk(fmt.Sprintf("a-start-during-stop-clear%v", clear), func(s *scn) {
+			s.direct("stop_exclusive", "")
+			s.start()
+			s.waitCount("online", 1)
+			stopped := make(chan struct{})
+			started := make(chan struct{})
+			go func() { defer close(stopped); s.stop(clear) }()
+			s.waitCount("offline", 1) // the supervisor is inside the gated OfflineCallback, Stop waits for it
+			go func() { defer close(started); s.start() }()
+			s.waitCountD("startret", 2, 60*time.Millisecond, false)
+			if s.count("startret") >= 2 && s.count("stopret") == 0 {
+				s.direct("stop_exclusive", "Start-returned-while-Stop-was-still-in-progress")
+			}
+			s.release("off")
+			<-stopped
+			<-started
+			// the restarted service: a QoS 1 publish whose connection drops before the PUBACK completes when the
+			// duplicate is acknowledged on the next connection
+			s.waitCount("online", 2)
+			var a int
+			s.via(func() { a = s.cmd(pub("keep", "across-reconnect", 1)) })
+			s.waitFut(a)
+			s.mu.Lock()
+			st := s.futSt[a]
+			s.mu.Unlock()
+			if st != "completed" {
+				s.direct("stop_exclusive", "after-Start-overlapping-Stop-a-future-did-not-survive-the-reconnect:"+st)
+			}
+		})
+		s.noMon = true
+		s.clean = false
+		s.offGate = "off"
+		s.plans = []connPlan{{}, {dropAfter: 1}, {sp: true}}
+		out = append(out, s)
+	}
+
 	return out
 }
-
 
 func randPlan(r *rand.Rand) connPlan {
 	x := r.Intn(100)
